@@ -110,6 +110,7 @@ class PEval(Folder):
         self.calls_seen = {}
         self._pdom = {}
         self.lenient = False  # unmodelled external calls abort (False) or are opaque (True)
+        self.opaque_hook = None  # lenient mode: (callee name, args, terminator) -> value | None, for external getters a rule gives a meaning
         self.record_trace = False
         self.arith = False  # symbolic arithmetic on payload bytes (encoders): off unless a rule asks for it
         self.atom_ranges = {}
@@ -962,6 +963,12 @@ class PEval(Folder):
             return
         if self.lenient:
             # an external function without a model: result unknown, pointees of mutable references unknown
+            if self.opaque_hook is not None:
+                v = self.opaque_hook(name, args, t)
+                if v is not None:
+                    self._store(st, fidx, t["dest"], v)
+                    self._enter_block(st, t["target"])
+                    return
             self._opaque_call(st, t, args)
             return
         raise _Abort("top", "call to %s is not modelled (at %s:%s)" % (name, t.get("file"), t.get("line")))
